@@ -1,6 +1,7 @@
 import ZmqVerif.Lemmas.Rfc
 import ZmqVerif.Lemmas.Decode
 import ZmqVerif.Gen.Tables
+import ZmqVerif.Lemmas.Command
 /-!
 # C01 — message framing conforms to ZMTP 3.0 and round-trips exactly
 
@@ -97,5 +98,55 @@ identity configured (regenerated on every run) equals the model's encoding. -/
 theorem C01_ready_gen :
     Gen.readyBytes = ([SockType.pub, .sub, .req, .rep, .dealer, .router, .pull, .push, .xpub].map
       fun t => (t.toNat, encodeReady t none false)) := by decide
+
+theorem readyProps_ok (t : SockType) (ident : Option Bytes) (idFirst : Bool)
+    (hid : ∀ i, ident = some i → i.length < 2 ^ 32) : PropsOk (readyProps t ident idFirst) := by
+  have hname : t.name.length < 2 ^ 32 := by cases t <;> decide
+  have hk1 : kSocketType.length = 11 := rfl
+  have hk2 : kIdentity.length = 8 := rfl
+  intro p hp
+  cases ident with
+  | none =>
+    simp only [readyProps, List.mem_singleton] at hp
+    subst hp
+    simp only [hk1]; omega
+  | some i =>
+    have hi := hid i rfl
+    simp only [readyProps] at hp
+    split at hp <;> simp only [List.mem_cons, List.not_mem_nil, or_false] at hp <;>
+      rcases hp with rfl | rfl <;> simp only [hk1, hk2] <;> omega
+
+theorem readyProps_utf8 (t : SockType) (ident : Option Bytes) (idFirst : Bool)
+    (hu : validUtf8 kSocketType = true ∧ validUtf8 kIdentity = true) :
+    ∀ p ∈ readyProps t ident idFirst, validUtf8 p.1 = true := by
+  intro p hp
+  cases ident with
+  | none =>
+    simp only [readyProps, List.mem_singleton] at hp
+    subst hp; exact hu.1
+  | some i =>
+    simp only [readyProps] at hp
+    split at hp <;> simp only [List.mem_cons, List.not_mem_nil, or_false] at hp <;>
+      rcases hp with rfl | rfl <;> first | exact hu.1 | exact hu.2
+
+/-- READY, for EVERY socket type and EVERY identity the wire format can carry (shorter than 2^32
+octets — the library itself refuses more than 255), in either property order: the command body the
+encoder writes parses under the independent RFC-23 grammar of a command body to the name `READY`
+and exactly the properties Socket-Type = the type's name and (when configured) Identity = the
+identity … -/
+theorem C01_ready_rfc (t : SockType) (ident : Option Bytes) (idFirst : Bool)
+    (hid : ∀ i, ident = some i → i.length < 2 ^ 32) :
+    Rfc.parseCommandBody (commandBody kReady (readyProps t ident idFirst)) =
+      some (kReady, readyProps t ident idFirst) :=
+  rfc_commandBody kReady _ (by decide) (by decide) (readyProps_ok t ident idFirst hid)
+
+/-- … and the library's own command parser reads it back as exactly those properties (the two
+property names are valid UTF-8: hypothesis `hu` — `validateUTF8` does not reduce in the kernel;
+the correspondence run evaluates it). -/
+theorem C01_ready_lib (t : SockType) (ident : Option Bytes) (idFirst : Bool)
+    (hid : ∀ i, ident = some i → i.length < 2 ^ 32)
+    (hu : validUtf8 kSocketType = true ∧ validUtf8 kIdentity = true) :
+    parseCommand (commandBody kReady (readyProps t ident idFirst)) = .ok (readyProps t ident idFirst) :=
+  lib_readyBody _ (readyProps_ok t ident idFirst hid) (readyProps_utf8 t ident idFirst hu)
 
 end Zmq.C01
